@@ -10,6 +10,7 @@ CONSTANTS
   KindSet = {"good", "dup"}
   KwargsSet = {"empty"}
   UseKeySet = {TRUE}
+  NFiles = 1
   MaxRecs = 1
   Threads = 1
 CONSTRAINT Emit
